@@ -1,4 +1,4 @@
-import QuillModel.Extracted
+import QuillModel.Extracted.Queue
 import QuillModel.Props.C01
 import QuillModel.Props.C09
 /-!
@@ -8,7 +8,7 @@ compiling — the proof obligation is broken and the check goes looking for a fa
 -/
 namespace Obligations
 
-theorem extraction_complete : Extracted.extractionFailures = [] := by decide
+theorem extraction_complete : Extracted.queueFailures = [] := by decide
 
 theorem bounded_orders_ok : Spsc.OrdersOK Extracted.boundedParams := by decide
 
